@@ -87,6 +87,8 @@ type Stream struct {
 	// when callback.OnData inner call stream.Close set this field
 	// after OnData return check state and call stream.Close again
 	callbackCloseState uint32
+	// set when Close() was deferred to the callback goroutine while the peer had not closed yet
+	localCloseDeferred uint32
 }
 
 // newStream is used to construct a new stream within
@@ -282,7 +284,9 @@ func (s *Stream) Close() error {
 		atomic.StoreUint32(&s.callbackCloseState, uint32(callbackWaitExit))
 	}
 	if atomic.LoadUint32(&s.callbackInProcess) == 1 {
-		atomic.CompareAndSwapUint32(&s.state, uint32(streamOpened), uint32(streamHalfClosed))
+		if atomic.CompareAndSwapUint32(&s.state, uint32(streamOpened), uint32(streamHalfClosed)) {
+			atomic.StoreUint32(&s.localCloseDeferred, 1)
+		}
 		return nil
 	}
 
@@ -303,7 +307,7 @@ func (s *Stream) close() error {
 			s.asyncGoroutineWg.Wait()
 		}
 		s.clean()
-		if oldState == uint32(streamOpened) {
+		if oldState == uint32(streamOpened) || atomic.LoadUint32(&s.localCloseDeferred) == 1 {
 			s.safeCloseNotify()
 			callback := s.getCallbacks()
 			if callback != nil {
